@@ -841,6 +841,44 @@ class OpRunner:
                     res["fresh_shared_nodes"] = len(sh)
                 a.node_ids |= fform.ids
 
+    # -- the caller handles the long-lived objects the way Python programs do ------
+    def op_poke(self, op, res):
+        """Between two calls a program may copy, pickle, print or introspect its
+        parser / lexer / generator objects.  None of that is a use of the object in
+        the sense of C12, so nothing any later call returns may change.  Failures
+        of these interactions are ignored; the op itself is never compared."""
+        import copy
+        import pickle
+
+        a = self.a
+        res["out"] = {"k": "abort", "d": "poke"}
+        what = op.get("what") or ["repr", "copy", "deepcopy", "pickle", "dir", "eq"]
+        n = 0
+        for key, obj in list(a.objs.items()):
+            if key.startswith("_"):
+                continue
+            o = obj[0] if isinstance(obj, tuple) else obj
+            for w in what:
+                try:
+                    if w == "repr":
+                        repr(o), str(o)
+                    elif w == "copy":
+                        copy.copy(o)
+                    elif w == "deepcopy":
+                        copy.deepcopy(o)
+                    elif w == "pickle":
+                        pickle.loads(pickle.dumps(o))
+                    elif w == "dir":
+                        dir(o), vars(o), hash(o), bool(o)
+                    elif w == "eq":
+                        o == o, o != object()
+                    n += 1
+                except (KeyboardInterrupt, SystemExit):
+                    raise
+                except BaseException:
+                    pass
+        res["pokes"] = n
+
     # -- the caller edits an AST it was given ---------------------------------------
     def op_mutate(self, op, res):
         """What user code does with results (cf. examples/rewrite_ast.py): modify
